@@ -12,7 +12,9 @@ PID = 'C13'
 def labelings(R, C):
     return [('default', R, C),
             ('alpha', ['i', 'ii', 'iii', 'iv', 'v', 'vi'][:R], ['a', 'b', 'c', 'd', 'e', 'f'][:C]),
-            ('digits-permuted', ['2', '3', '1', '5', '4', '6'][:R], ['3', '1', '2', '5', '6', '4'][:C])]
+            ('digits-permuted', ['2', '3', '1', '5', '4', '6'][:R], ['3', '1', '2', '5', '6', '4'][:C]),
+            # labels are taken as given: blanks, letter case and look-alikes belong to the label
+            ('blanks-and-case', [' r1', 'r2 ', 'R1', 'r 4', 'r1', 'R2 '][:R], ['x ', ' x', 'X', 'x', ' X ', 'y'][:C])]
 
 
 def axis_specs(labels, thorough=False):
@@ -142,6 +144,10 @@ def _shape_worker(item):
     rows, cols = list(plate.row_names), list(plate.column_names)
     # labels themselves are part of the property (default rows A.., default columns '1'..)
     viols, classes, n, judged = [], set(), 0, 0
+    if lname != 'default' and (rows != list(rl) or cols != list(cl)):
+        return [V("Plate.__init__ | labels-changed | custom-labels",
+                  f"a plate built with rows={list(rl)!r}, columns={list(cl)!r} carries rows={rows!r}, columns={cols!r}",
+                  {'rows': list(rl), 'cols': list(cl), 'labeling': lname, 'sel': 'None'})], classes, n, judged
     if lname == 'default':
         if rows != selectors.default_rows(R) or cols != selectors.default_cols(C):
             viols.append(V("Plate.__init__ | default-labels | rows-or-columns",
@@ -193,7 +199,7 @@ def run(col):
     env.load()
     mx = 4 if col.tier == 'quick' else 6
     col.rule = (f"complete enumeration of the documented selector grammar (DESIGN Appendix B) on every plate shape R x C with "
-                f"R, C in 1..{mx}, under 3 labelings (default, alphabetic custom, permuted digit strings), plus 27x2 / 28x1 / "
+                f"R, C in 1..{mx}, under 4 labelings (default, alphabetic custom, permuted digit strings, labels with blanks / differing only in case), plus 27x2 / 28x1 / "
                 f"53x1 default plates for labels beyond 'Z', plus a reject family (out-of-range, unknown labels, label/int "
                 f"confusion, floats, None, wrong tuple lengths, malformed 'r:c'); each judged against an independent resolver "
                 f"written from the documentation. Non-trivial = distinct (labeling, selector form, expectation, outcome) classes")
@@ -223,7 +229,8 @@ def replay(case):
         if isinstance(case['rows'], int):
             return _tall_worker((case['rows'], case['cols']))[0] if case['rows'] > 5 else \
                 _shape_worker((case['rows'], case['cols'], ('default', case['rows'], case['cols'])))[0]
-        return []
+        return [v for v in _shape_worker((len(case['rows']), len(case['cols']), (case['labeling'], case['rows'], case['cols'])))[0]
+                if 'labels-changed' in v['signature'] or 'well-names' in v['signature']]
     rows, cols = case['rows'], case['cols']
     plate = pp.Plate('T', '100 uL', rows=list(rows), columns=list(cols))
     v, _ = judge(pp, plate, list(plate.row_names), list(plate.column_names), case['labeling'], selectors.ev(case['sel']))
